@@ -1,6 +1,7 @@
 import Driver.Util
 import Driver.C03
 import Driver.C13
+import Driver.Meta
 
 /-- one line in, one line out; the handler may carry state -/
 structure Handler where
@@ -12,7 +13,8 @@ def stateless (f : String → String) : Handler := ⟨Unit, (), fun _ l => ((), 
 
 def handlers : List (String × Handler) := [
   ("c03", stateless Driver.C03.handle),
-  ("c13", stateless Driver.C13.handle)
+  ("c13", stateless Driver.C13.handle),
+  ("meta", ⟨Driver.MetaD.St, {}, Driver.MetaD.step⟩)
 ]
 
 partial def loop (h : IO.FS.Stream) (out : IO.FS.Stream) (H : Handler) (s : H.σ) : IO Unit := do
